@@ -12,7 +12,8 @@ package main
 //   SA/SR Stop() call/return, CA cancel, CL close(siphon), F:<xid>,<cfg>,<inst>,<beh> factory ok,
 //   FE:<xid>,<cfg> factory error, RC/RX:<inst> Run call/return, SC/ST:<inst> Stop call/return,
 //   N:<count> GetServerCount, S:<R|L|P|D|?> GetState, RR Run returned.
-//   (PD, RX and NB are bookkeeping; the check strips them before the acceptor.)
+//   (PD, RX and NB are bookkeeping; the check strips them before the acceptor.  TIMING marks a run in
+//   which the process stalled for longer than the readiness deadline: such a run is discarded.)
 
 import (
 	"context"
@@ -83,6 +84,7 @@ func runnerChild(script string) int {
 			acts = append(acts, t)
 		}
 	}
+	e.deadline = time.Duration(deadlineMs) * time.Millisecond
 	factory := func(ctx context.Context, id string, cfg *httpserver.Config, _ slog.Handler) (httpcluster.VerifServerRunner, error) {
 		e.mu.Lock()
 		b := "r"
@@ -97,7 +99,7 @@ func runnerChild(script string) int {
 		}
 		m := &mockServer{env: e, inst: e.nextInst, id: id, cfg: cfgNum(cfg), ready: b[0],
 			slowStop: strings.HasSuffix(b, "s") && len(b) > 1,
-			release:  make(chan struct{}), stopped: make(chan struct{})}
+			release:  make(chan struct{}), stopped: make(chan struct{}), created: time.Now()}
 		e.nextInst++
 		e.servers = append(e.servers, m)
 		e.mu.Unlock()
